@@ -143,7 +143,16 @@ def _run_job(args):
         missing = [o for o in job.must_reach if stats.outcomes.get(o, 0) == 0]
         if missing and not viols:
             out["inconclusive"] = "vacuity: outcome classes never reached: %s" % missing
-        out["violations"] = [(l, jsonable(i)) for l, i in viols[:60]]
+        # keep one counterexample per classification key (so that one frequent failure cannot crowd out another)
+        bykey = {}
+        for l, i in viols:
+            try:
+                k = job.key(i, l)
+            except Exception:
+                k = l
+            if k not in bykey and len(bykey) < 40:
+                bykey[k] = (l, jsonable(i))
+        out["violations"] = list(bykey.values())
         out["stats"] = stats
         out["validated"] = nval[0]
     except core.Inconclusive as e:
